@@ -23,6 +23,7 @@ import (
 	"strconv"
 	"strings"
 	"sync"
+	"syscall"
 	"time"
 )
 
@@ -248,7 +249,7 @@ func runWorkers(u *unit, bin, prop, outDir string, seed uint64, workers int, bud
 			case err = <-done:
 			case <-time.After(hardLimit):
 				timedOut = true
-				_ = cmd.Process.Signal(os.Interrupt)
+				_ = cmd.Process.Signal(syscall.SIGQUIT) // goroutine dump into the worker log
 				select {
 				case err = <-done:
 				case <-time.After(5 * time.Second):
